@@ -281,7 +281,7 @@ func cmdCheck(args []string) int {
 	wg.Wait()
 
 	// ---- verdict
-	replayDir := filepath.Join(verifDir, "replays", *prop)
+	replayDir := filepath.Join(envOr("VERIF_REPLAY_DIR", filepath.Join(verifDir, "replays")), *prop)
 	os.MkdirAll(replayDir, 0o755)
 	inconclusive := []string{}
 	var violRecs []ReplayRec
@@ -315,7 +315,10 @@ func cmdCheck(args []string) int {
 		}
 		nrel := 0
 		for id, o := range res.Obligations {
-			if relevant(id, *prop, r.spec) && id != "PANIC" && id != "DEADLOCK" {
+			if relevant(id, *prop, r.spec) && id != "DEADLOCK" {
+				if id == "PANIC" && o.Reached == 0 {
+					continue
+				}
 				obTotal++
 				if o.Reached > 0 {
 					nrel++
